@@ -208,6 +208,33 @@ theorem pi_batch : passesIdentity .batch = false := by decide
 theorem dispatched_of_pi {c : Cmd} (h : passesIdentity c = true) : dispatched c = true := by
   unfold dispatched; unfold passesIdentity at h; rw [h]; rfl
 
+theorem dispatched_all (c : Cmd) : dispatched c = true := by
+  cases c with
+  | store a b => exact dispatched_of_pi (pi_store a b)
+  | query a b => exact dispatched_of_pi (pi_query a b)
+  | define a => exact dispatched_of_pi (pi_define a)
+  | createUser a b c => exact dispatched_of_pi (pi_createUser a b c)
+  | revokeKey a => exact dispatched_of_pi (pi_revokeKey a)
+  | listUsers => exact dispatched_of_pi pi_listUsers
+  | grant a b c => exact dispatched_of_pi (pi_grant a b c)
+  | revoke a b c => exact dispatched_of_pi (pi_revoke a b c)
+  | showPermissions a => exact dispatched_of_pi (pi_showPermissions a)
+  | compare a =>
+    show (identityArms.contains "Compare".toList || anonymousArms.contains "Compare".toList || refusedArms.contains "Compare".toList) = true
+    decide
+  | replay a =>
+    show (identityArms.contains "Replay".toList || anonymousArms.contains "Replay".toList || refusedArms.contains "Replay".toList) = true
+    decide
+  | remember a b c =>
+    show (identityArms.contains "RememberQuery".toList || anonymousArms.contains "RememberQuery".toList || refusedArms.contains "RememberQuery".toList) = true
+    decide
+  | «show» a =>
+    show (identityArms.contains "ShowMaterialized".toList || anonymousArms.contains "ShowMaterialized".toList || refusedArms.contains "ShowMaterialized".toList) = true
+    decide
+  | flush => decide
+  | ping => decide
+  | batch => decide
+
 theorem authorize_store (st uid et ok) :
     authorize st true uid (.store et ok) = checkId uid (fun u => canWrite st u et) := by
   unfold authorize
@@ -1039,6 +1066,7 @@ theorem dispatch_200 (alnum : Char → Bool) (st st' : State) (mgr : Bool) (uid 
   cases ha : authorize st mgr uid c with
   | proceed => rfl
   | crash => cases c <;> simp only [ha] at h <;> (try split at h) <;> simp at h
+  | refused => cases c <;> simp only [ha] at h <;> (try split at h) <;> simp at h
   | unauthorized => cases c <;> simp only [ha] at h <;> (try split at h) <;> simp at h
   | forbidden => cases c <;> simp only [ha] at h <;> (try split at h) <;> simp at h
   | internal => cases c <;> simp only [ha] at h <;> (try split at h) <;> simp at h
